@@ -9,6 +9,7 @@ import (
 	"fmt"
 	"runtime"
 	"sync"
+	"sync/atomic"
 	"unsafe"
 )
 
@@ -163,6 +164,10 @@ type World struct {
 	PoolMisses   uint64
 }
 
+// RunsStarted counts simulated executions of this process (a heartbeat for the worker's wall-clock
+// watchdog; never read by anything that influences a run).
+var RunsStarted atomic.Uint64
+
 type abortSignal struct{}
 
 // Config for a run.
@@ -184,6 +189,7 @@ func Run(cfg Config, main func(w *World)) *World {
 	if W != nil {
 		panic("simrt: nested Run")
 	}
+	RunsStarted.Add(1)
 	w := &World{
 		MaxSteps:    cfg.MaxSteps,
 		doneCh:      make(chan struct{}),
